@@ -180,7 +180,7 @@ PROPS["C19"] = {
             "a == b, b == a, a != b, b != a, value-arm match and a == a are compared with the reference equality (element-wise, floats IEEE, different kinds unequal). Plus a checklist of scalar / cross-kind / function / cell identity cases "
             "and host-built arrays with every stored element type compared through Variable == and in-language. distinct_nontrivial = distinct comparison programs. Added after seeded changes: static views (the same value through differently typed parameters, also with one operand a literal); identity of functions and cells seen from inside a function body; containers holding NaN compared with their aliases; nesting 127-400 levels deep; negated spellings of == / !=; floats one or two ulps apart; all ordered pairs of a 20-element scalar pool (signed zeros, NaN, infinities, look-alikes of other kinds) through == / != / value arms in four constness forms, and `match` with 20 all-constant leading arms in 20 orders; struct contents (field orders permuted, nested, in tuples) in the provenance grid.",
     "assumptions": COMMON_ASSUME + ["reference equality = the documented one, implemented in the harness over its own content representation"],
-    "floors": {"quick": {"evaluations": 25000, "shape:path_pairs": 256, "expected-equal": 2500, "expected-unequal": 5000, "host-built-pairs": 2500, "scalar-cases-held": 150},
+    "floors": {"quick": {"evaluations": 25000, "shape:path_pairs": 256, "expected-equal": 2500, "expected-unequal": 5000, "host-built-pairs": 2500, "scalar-cases-held": 900},
                "thorough": {"evaluations": 50000, "shape:path_pairs": 256, "expected-equal": 5000, "expected-unequal": 10000, "host-built-pairs": 5000, "scalar-cases-held": 150}},
     "technique": "runtime provenance monitor: equal / unequal contents built along every pair of array-producing paths, compared with a reference equality",
     "level_text": "Every pair of provenance paths is exercised for every listed content pair through the real parser / folder / interpreter (constant and run-time operands) and through the host API; exhaustive over the listed contents x paths, nothing beyond.",
